@@ -83,8 +83,19 @@ impl CanonStreamMap {
     }
 
     pub(crate) fn as_jvalue(&self) -> JValue {
-        let json_map: air_interpreter_value::Map<JsonString, JValue> =
-            self.map.iter().map(|(k, v)| (k.to_key(), v.as_jvalue())).collect();
+        // Keys of different types can print alike (the string "1" and the number 1), so two entries may
+        // claim one JSON key. The keys are walked in the order of their first appearance in the canonical
+        // stream and the first claimant wins; walking the hash map instead would make the winner depend on
+        // the hasher's seed.
+        let mut json_map: air_interpreter_value::Map<JsonString, JValue> = <_>::default();
+        for kvpair_obj in self.values.iter() {
+            let Some(key) = StreamMapKey::from_kvpair_owned(kvpair_obj) else {
+                continue;
+            };
+            if let Some(canon_stream) = self.map.get(&key) {
+                json_map.entry(key.to_key()).or_insert_with(|| canon_stream.as_jvalue());
+            }
+        }
         json_map.into()
     }
 
